@@ -96,6 +96,29 @@ def shrink(x, workers=1):
     return x * 2
 
 
+# outcome decided by a control file at call time: the same call (same evaluation hash) can return
+# different values or raise different errors in successive runs
+@task()
+def stateful(ctrl, tag=0):
+    kind, _, rest = open(ctrl).read().partition(":")
+    if kind == "raise":
+        raise RuntimeError(rest)
+    if kind == "raise2":
+        raise LookupError(rest, tag)
+    return [kind, rest, tag]
+
+
+@task()
+def produce(ctrl, out):
+    """returns a File: the stored result stops being valid when `out` is removed or rewritten"""
+    kind, _, rest = open(ctrl).read().partition(":")
+    if kind.startswith("raise"):
+        raise RuntimeError(rest)
+    with open(out, "w") as fh:
+        fh.write(rest)
+    return [File(out), rest]
+
+
 @task(config_args=["tmp_dir", "verbose"])
 def render(x, tmp_dir="/tmp", verbose=False):
     if not tmp_dir:
@@ -366,12 +389,21 @@ def cq_fs(snap: dict) -> str:
     return cq_list([f"({cs(p)}, {cq_blob(b)})" for p, b in snap.items()])
 
 
+def _norm(v):
+    from redun import File
+    if isinstance(v, File):
+        return ("File", v.path)
+    if isinstance(v, (list, tuple)):
+        return type(v)(_norm(x) for x in v)
+    return v
+
+
 def same_outcome(a, b) -> bool:
-    """equality of ('ret', v) / ('exc', e): values by ==, exceptions by type and args"""
+    """equality of ('ret', v) / ('exc', e): values by == (a File by its path), exceptions by type and args"""
     if a[0] != b[0]:
         return False
     if a[0] == "ret":
-        return type(a[1]) is type(b[1]) and a[1] == b[1]
+        return type(a[1]) is type(b[1]) and _norm(a[1]) == _norm(b[1])
     return type(a[1]) is type(b[1]) and a[1].args == b[1].args
 
 
@@ -449,12 +481,17 @@ class Gen:
 class Check(PropertyCheck):
     id = "C32"
     module = "Props.C32"
+    cfgname = "shipped"
     theorems = ["C32_single_eq_local", "C32_single_eq_local_fresh", "C32_array_elem_eq_local",
                 "C32_array_elem_eq_local_batch", "C32_own_paths", "C32_array_index_env", "C32_jobname_roundtrip",
                 "C32_jobname_roundtrip_hex", "C32_eval_hashes_file", "C32_reunite_only_same_hash", "C32_nonvacuous",
                 "C32_array_group_own_task", "C32_array_group_elem_eq_local", "C32_grouping_by_name_refuted",
-                "C32_attempts_eq_local", "C32_attempts_after_failures", "C32_stage_if_absent_refuted"]
-    extra_modules = ["Base.Lit", "Model.ScratchCases"]
+                "C32_attempts_eq_local", "C32_attempts_after_failures", "C32_stage_if_absent_refuted",
+                "C32_output_iff_success_fixed", "C32_output_iff_success_fixed_no_cache",
+                "C32_output_iff_success_shipped_partial", "C32_array_output_iff_success_fixed",
+                "C32_array_output_iff_success_shipped_partial", "C32_stale_output_no_cache_refuted",
+                "C32_never_clear_refuted", "C32_history_fixed_agrees"]
+    extra_modules = ["Base.Lit", "Model.ScratchCases", "Proofs.ScratchClear"]
     allowed_axioms = []
     section_premises = [
         "pickle round trip: load (dump o) = Some o for every object the protocol writes (arguments, results, "
@@ -488,6 +525,8 @@ class Check(PropertyCheck):
         except astutil.TranslateError as e:
             raise TranslateError(str(e))
         self.cfg = cfg
+        # the model variant the current source is in (the tie lemma of C32Gen.v states the same)
+        self.cfgname = {"ClearCached": "shipped", "ClearAlways": "fixed", "ClearNever": "never"}[cfg["clear_output"]]
         GEN.mkdir(exist_ok=True)
         p = GEN / "C32Gen.v"
         p.write_text(text)
@@ -519,7 +558,7 @@ class Check(PropertyCheck):
 
         def go(p):
             tag, terms, descr, what, chunk = p
-            return run_bool_cases(tag, ["Base.Decimal", "Base.Lit", "Model.Scratch", "Model.ScratchCases"],
+            return run_bool_cases(tag, ["Base.Decimal", "Base.Lit", "Model.Scratch", "Model.ScratchCases", "Proofs.ScratchClear"],
                                   "From Coq Require Import ZArith NArith String.\n", terms, chunk=chunk)
         with ThreadPoolExecutor(max_workers=3) as ex:
             results = list(ex.map(go, pending))
@@ -534,7 +573,7 @@ class Check(PropertyCheck):
         from redun.job_array import get_job_array_index
         r = self.rng
         g = Gen(r)
-        n = 200 if self.tier == "quick" else 6000
+        n = 200 if self.tier == "quick" else 1500
         terms, descr = [], []
 
         def add(t, d):
@@ -649,7 +688,7 @@ class Check(PropertyCheck):
         from redun.executors.scratch import parse_job_error, parse_job_result
         r = self.rng
         g = Gen(r)
-        n = 150 if self.tier == "quick" else 2500
+        n = 150 if self.tier == "quick" else 1000
         terms, descr = [], []
         for k in range(n):
             it = Intern()
@@ -780,11 +819,23 @@ class Check(PropertyCheck):
             bad = cq_list([f"({i})%Z" for i in sorted(it.bad)])
             unmodelled = any(not v.isdigit() for v in env.values())
             if unmodelled:
-                terms.append(f"run_eqb (snd (oneshotZ {cq_list(table)} {bad} {envq} {self._cq_oargs(parsed)} {cq_fs(before)})) (Unmodelled Z)")
+                terms.append(f"run_eqb (snd (oneshotZ {self.cfgname} {cq_list(table)} {bad} {envq} {self._cq_oargs(parsed)} {cq_fs(before)})) (Unmodelled Z)")
             else:
-                terms.append(f"oneshot_case {cq_list(table)} {bad} {envq} {self._cq_oargs(parsed)} {cq_fs(before)} "
+                terms.append(f"oneshot_case {self.cfgname} {cq_list(table)} {bad} {envq} {self._cq_oargs(parsed)} {cq_fs(before)} "
                              f"{exp_run} {cq_fs(after)} {cs(prefix)} {cs(tgt.eval_hash)} {exp_res} {exp_resv} {exp_err}")
             descr.append(("oneshot", prefix, "array" if array else "single", mut, stale, env, command, show(out)))
+            # what a file-judging executor (docker.iter_job_status) makes of the scratch dir afterwards
+            try:
+                ok_d = self._judge(real, prefix, "docker", tgt, None)
+                if ok_d:
+                    res_d, _ex = parse_job_result(prefix, tgt)
+                    exp_d = f"(CDone Z {Obj.coq(it.leaf(res_d))})"
+                else:
+                    exp_d = f"(CReject Z {Obj.coq(exc_obj(parse_job_error(prefix, tgt)[0], it))})"
+            except Exception:  # noqa
+                exp_d = "(CRaises Z)"
+            terms.append(f"collected_eqb (collect_by_output Z pb loadZ {self.cfgname} {cs(prefix)} {cs(tgt.eval_hash)} {cq_fs(after)}) {exp_d}")
+            descr.append(("docker-judgement", prefix, stale, mut, show(out), exp_d))
             self.stat("protocol_kind", "array" if array else "single")
             self.stat("protocol_mutation", mut)
             self.stat("protocol_outcome", "unmodelled" if unmodelled else (out[0] if out[0] == "ret" else type(out[1]).__name__))
@@ -912,7 +963,7 @@ class Check(PropertyCheck):
     def _reunite_cases(self, real):
         r = self.rng
         g = Gen(r)
-        n = 110 if self.tier == "quick" else 2000
+        n = 110 if self.tier == "quick" else 600
         terms, descr = [], []
         for k in range(n):
             it = Intern()
@@ -1022,7 +1073,7 @@ class Check(PropertyCheck):
     def _group_cases(self, real):
         from redun.job_array import JobDescription
         g = Gen(self.rng)
-        n = 60 if self.tier == "quick" else 1500
+        n = 60 if self.tier == "quick" else 600
         terms, descr = [], []
         for k in range(n):
             spec = self._job_mix(real, g)
@@ -1134,6 +1185,121 @@ class Check(PropertyCheck):
                                              {"kind": "attempts", "task": attr, "history": repr(history)}))
             shutil.rmtree(real.dir / prefix, ignore_errors=True)
 
+
+    # ------------------------------------------------------------------ run histories on one scratch dir
+    def _judge(self, real, prefix, path, job, exit_ok, ex=None):
+        """job status as the executor path decides it -> True (SUCCEEDED) / False (FAILED)"""
+        if path == "exit":
+            return exit_ok
+        if path == "docker":
+            from redun.executors import docker
+            with mock.patch.object(docker.subprocess, "check_output", lambda *a, **k: b""):
+                [st] = list(docker.iter_job_status(prefix, {"container-1": job}))
+            return st["status"] == "SUCCEEDED"
+        if path == "aws_override":       # the container exited, but docker inspect failed on the batch host
+            if exit_ok:
+                return True
+            from redun.executors.aws_batch import DOCKER_INSPECT_ERROR
+            ex.pending_batch_jobs["fb1"] = job
+            can, _reason = ex._can_override_failed({"jobId": "fb1", "attempts": [{"container": {"reason": DOCKER_INSPECT_ERROR + ": x"}}]})
+            return can
+        raise ValueError(path)
+
+    def _run_history(self, real, prefix, attr, path, steps, n_array=0):
+        """steps: [(ctrl contents per job, no_cache, invalidate)]; the same call(s) run once per step against
+        ONE scratch prefix. Returns [(known_class, text)] problems."""
+        from redun.executors.command import get_oneshot_command
+        from redun.executors.scratch import SCRATCH_ERROR, SCRATCH_OUTPUT, get_job_scratch_file
+        from redun.task import hash_args_eval
+        from redun.value import get_type_registry
+        reg = get_type_registry()
+        task = getattr(real.wf, attr)
+        njobs = max(1, n_array)
+        calls = []
+        for i in range(njobs):
+            ctrl = f"{prefix}_ctrl{i}"
+            a = (ctrl, f"{prefix}_out{i}") if attr == "produce" else (ctrl, i)
+            calls.append((a, {}))
+        jobs = [real.job(hash_args_eval(reg, task, a, kw)[0], a, kw) for a, kw in calls]
+        ex = self._array_executor(prefix) if path == "aws_override" else None
+        problems = []
+        aid = None
+        for n, (ctrls, no_cache, invalidate) in enumerate(steps):
+            opts = {"cache_scope": "NONE"} if no_cache else {}
+            for i, (a, kw) in enumerate(calls):
+                (real.dir / a[0]).write_text(ctrls[i % len(ctrls)])
+                if invalidate and attr == "produce" and (real.dir / a[1]).exists():
+                    (real.dir / a[1]).unlink()
+            if n_array:
+                if aid is None or self.rng.random() < 0.5:          # a re-submission gets a new array id
+                    aid = uuid.UUID(int=self.rng.getrandbits(128)).hex
+                    real.write_array(prefix, jobs, aid)
+                command = get_oneshot_command(prefix, jobs[0], task, job_options=opts, array_uuid=aid)
+            order = list(range(njobs))
+            self.rng.shuffle(order)
+            for i in order:
+                job = jobs[i]
+                outf = get_job_scratch_file(prefix, job, SCRATCH_OUTPUT)
+                errf = get_job_scratch_file(prefix, job, SCRATCH_ERROR)
+                had_output = os.path.exists(outf)
+                cached_valid = False
+                if had_output and not no_cache:
+                    try:
+                        with open(outf, "rb") as fh:
+                            cached_valid = bool(reg.is_valid_nested(pickle.load(fh)))
+                    except Exception:  # noqa
+                        pass
+                if not n_array:
+                    command = get_oneshot_command(prefix, job, task, job.args[0], job.args[1], job_options=opts)
+                out = real.oneshot(command, {ENV_VARS[0]: str(i)} if n_array else {})
+                ok = self._judge(real, prefix, path, job, out[0] == "ret", ex)
+                rem = real.collect(prefix, job, ok)
+                loc = real.local_task(task, *job.args)
+                if cached_valid:
+                    self.stat("oracle_histories", "not compared: valid cached output of the same evaluation hash")
+                    continue
+                self.stat("oracle_histories", f"compared:{path}")
+                known = no_cache and had_output and loc[0] == "exc"     # class of the known defect
+                where = f"run {n + 1} of {task.fullname}{job.args[0]!r} ({path} status, {'--no-cache' if no_cache else 'cache consulted'}" \
+                        f"{', array element ' + str(i) if n_array else ''}) after {n} earlier run(s) on the same scratch dir"
+                if not same_outcome(rem, loc):
+                    problems.append((known, f"{where}: remote {show(rem)} differs from local {show(loc)}"))
+                elif os.path.exists(outf) and os.path.exists(errf):
+                    problems.append((known, f"{where}: both the output and the error file exist afterwards "
+                                            f"(local {show(loc)})"))
+        return problems
+
+    K_STALE = "stale-output:no-cache:rerun-raises"
+
+    def _oracle_histories(self, real):
+        r = self.rng
+        n = 60 if self.tier == "quick" else 1500
+        fixed = [("stateful", "docker", [(["ok:1"], True, False), (["raise:later"], True, False)], 0),
+                 ("produce", "docker", [(["ok:v1"], False, False), (["raise:gone"], False, True)], 0),
+                 ("produce", "aws_override", [(["ok:v1"], False, False), (["raise:gone"], False, True)], 2),
+                 ("stateful", "exit", [(["ok:1"], False, False), (["raise:a"], False, False), (["raise2:b"], True, False),
+                                       (["ok:2"], True, False)], 0)]
+        for k in range(n):
+            if k < len(fixed):
+                attr, path, steps, n_array = fixed[k]
+            else:
+                attr = r.choice(["stateful", "produce", "produce"])
+                n_array = r.choice([0, 0, 2, 3])
+                path = r.choice(["exit", "aws_override"] if n_array else ["exit", "docker", "docker", "aws_override"])
+                steps = []
+                for _ in range(r.choice([2, 3, 4])):
+                    ctrls = [r.choice(["ok:1", "ok:2", "ok:v3", "raise:a", "raise:b", "raise2:c"]) for _ in range(max(1, n_array))]
+                    steps.append((ctrls, r.random() < 0.35, r.random() < 0.6))
+            prefix = f"h{k}"
+            problems = self._run_history(real, prefix, attr, path, steps, n_array)
+            self.count(("history", attr, path, repr(steps), n_array), len(steps) * max(1, n_array))
+            for known, text in problems[:1]:
+                key = self.K_STALE if known else f"history:{path}:{attr}:{[(c, nc) for c, nc, _ in steps]!r}"[:200]
+                if len(self.findings) < 60:
+                    self.findings.append(Finding(key, text, {"kind": "history", "task": attr, "path": path,
+                                                             "steps": repr(steps), "array": n_array}))
+            shutil.rmtree(real.dir / prefix, ignore_errors=True)
+
     # ------------------------------------------------------------------ oracle
     def oracle(self):
         real = Real()
@@ -1149,14 +1315,18 @@ class Check(PropertyCheck):
                              ("arrays", lambda: self._oracle_arrays(real)),
                              ("array_path", lambda: self._oracle_array_path(real)),
                              ("attempts", lambda: self._oracle_attempts(real)),
+                             ("histories", lambda: self._oracle_histories(real)),
                              ("subprocess", lambda: self._oracle_subprocess(real)),
                              ("reunite", lambda: self._oracle_reunite(real))):
                 t0 = time.time()
                 fn()
                 self.stat("timing_s", "oracle_" + name, round(time.time() - t0, 1))
             self.ob("oracle", "implementation oracle: remote == local (single, array elements in any order, CLI "
-                    "subprocess), own files only, job-name round trip, reunite only same hash",
-                    len(self.findings) == n0, "; ".join(f.what for f in self.findings[n0:n0 + 5]))
+                    "subprocess), own files only, job-name round trip, reunite only same hash, attempt and run "
+                    "histories on one scratch dir under exit-status / docker / aws-override judgement "
+                    f"(apart from the known finding {self.K_STALE})",
+                    not [f for f in self.findings[n0:] if f.key != self.K_STALE],
+                    "; ".join(f.what for f in self.findings[n0:] if f.key != self.K_STALE)[:1500])
         finally:
             real.close()
 
@@ -1258,7 +1428,7 @@ class Check(PropertyCheck):
         n = 50 if self.tier == "quick" else 800
         sizes = [1, 2, 3, 4, 5, 7, 8, 12, 16, 24]
         for k in range(n):
-            size = sizes[k % len(sizes)] if k < n - 1 else (130 if self.tier == "quick" else 1200)   # small first
+            size = sizes[k % len(sizes)] if k < n - 1 else (130 if self.tier == "quick" else 400)   # small first
             argsets, seen = [], set()
             while len(argsets) < size:
                 a, kw = g.argset()
@@ -1376,6 +1546,11 @@ class Check(PropertyCheck):
         elif r.get("kind") == "array":
             probs = self._array_run(real, "rp", eval(r["argsets"]), r["order"], r["var"], r["no_cache"],
                                     via=real.oneshot_subprocess if r.get("subprocess") else None)
+            if probs:
+                bad = probs[0][1]
+            shutil.rmtree(real.dir / "rp", ignore_errors=True)
+        elif r.get("kind") == "history":
+            probs = self._run_history(real, "rp", r["task"], r["path"], eval(r["steps"]), r.get("array", 0))
             if probs:
                 bad = probs[0][1]
             shutil.rmtree(real.dir / "rp", ignore_errors=True)
